@@ -531,6 +531,16 @@ func (em *emitter) emitAssignmentNode(node *ast.Assignment) {
 				indexType = exprType.Key()
 			}
 			index := em.emitExpr(v.Index, indexType)
+			if len(node.Lhs) > 1 {
+				// The operands of the index expressions on the left are
+				// evaluated before any assignment of the statement: copy
+				// them, because they can be in the registers of variables
+				// assigned by the same statement, as in 'i, s[i] = 2, 9'.
+				index = em.copyOperand(index, indexType)
+				if k := exprType.Kind(); k == reflect.Slice || k == reflect.Map {
+					expr = em.copyOperand(expr, exprType)
+				}
+			}
 			switch exprType.Kind() {
 			case reflect.Map:
 				if nonLocalMap, ok := em.varStore.nonLocalVarIndex(v.Expr); ok {
@@ -556,6 +566,9 @@ func (em *emitter) emitAssignmentNode(node *ast.Assignment) {
 			}
 			typ := em.typ(expr)
 			reg := em.emitExpr(expr, typ)
+			if len(node.Lhs) > 1 && typ.Kind() == reflect.Pointer {
+				reg = em.copyOperand(reg, typ)
+			}
 			var field reflect.StructField
 			if typ.Kind() == reflect.Pointer {
 				field, _ = typ.Elem().FieldByName(v.Ident)
@@ -574,12 +587,26 @@ func (em *emitter) emitAssignmentNode(node *ast.Assignment) {
 			}
 			typ := em.typ(v.Expr)
 			reg := em.emitExpr(v.Expr, typ)
+			if len(node.Lhs) > 1 {
+				reg = em.copyOperand(reg, typ)
+			}
 			addresses[i] = em.addressPtrIndirect(reg, typ, pos, node.Type)
 		default:
 			panic(internalError("unexpected"))
 		}
 	}
 	em.assignValuesToAddresses(addresses, node.Rhs)
+}
+
+// copyOperand copies the operand in the register reg, with type typ, into a
+// new register and returns it. If reg is a constant, returns reg.
+func (em *emitter) copyOperand(reg int8, typ reflect.Type) int8 {
+	if reg <= 0 {
+		return reg
+	}
+	tmp := em.fb.newRegister(typ.Kind())
+	em.changeRegister(false, reg, tmp, typ, typ)
+	return tmp
 }
 
 // emitImport emits an import node, returning the list of all 'init' functions
